@@ -491,6 +491,7 @@ func c16Body(c *fw.Ctx) {
 		k, kb, t = 4, 3, 5
 	}
 	// (1)
+	c.ParseKind = "c16-noopt"
 	forEachParseInput(c, k, kb, t, false, func(label, base, input string) {
 		c.Eval()
 		f := c16NoOptions(base, input)
@@ -546,6 +547,10 @@ func c16Body(c *fw.Ctx) {
 			if !c.Mine() || c.Expired() {
 				continue
 			}
+			cc0, x0 := cc, x
+			c.CurCase(func() *fw.Case {
+				return &fw.Case{Kind: "c16-canon", S: fw.Strs(x0.base, x0.input, cc0.Scheme), N: []int{b2i(cc0.RemoveUser), b2i(cc0.RemovePort), b2i(cc0.RemoveFrag), cc0.Sort}}
+			})
 			c.Eval()
 			f := c16Canon(cc, x.base, x.input)
 			if f != nil {
@@ -585,6 +590,8 @@ func c16Body(c *fw.Ctx) {
 			if multi && label != "raw-base" && label != "product" && !c.Thorough() {
 				continue // pairs on the with-base and product spaces in the quick tier
 			}
+			cf0 := cfg
+			c.CurCase(func() *fw.Case { return &fw.Case{Kind: "c16-neutral", S: fw.Strs(base, input), Cfg: cf0} })
 			c.Eval()
 			f, used := c16Neutral(cfg, base, input)
 			if f != nil {
@@ -628,6 +635,8 @@ func c16Body(c *fw.Ctx) {
 				if !c.Mine() || c.Expired() {
 					return
 				}
+				in0 := pre + string(s)
+				c.CurCase(func() *fw.Case { return &fw.Case{Kind: "c16-effect", S: fw.Strs("", in0), Cfg: []string{ec.Name}} })
 				c.Eval()
 				c.R.Traces++
 				f, okk := c16Effect(ec, "", pre+string(s))
@@ -672,6 +681,7 @@ func c16Body(c *fw.Ctx) {
 				if base != "" {
 					in = string(s)
 				}
+				c.Cur("c16-collapse", base, in)
 				f, okk := c16CollapseEval(base, in)
 				if f != nil {
 					c.Report(f, func() *fw.Case { return &fw.Case{Kind: "c16-collapse", S: fw.Strs(base, in)} })
